@@ -37,7 +37,7 @@ STUBS = []
 PROBES = ['gen_on_existing_rejected', 'gen_force', 'gen_force_other_reference', 'upd_new', 'upd_existing_rejected',
           'upd_force_existing', 'upd_force_new', 'load_unregistered_rejected', 'skew_rejected', 'graph_params_alias',
           'auto_exception_alias', 'symlink', 'natural_failure', 'three_or_more_pools', 'invalid_protein_as_noncoding',
-          'skew_rejected_plain_load', 'gen_force_on_old_layout']
+          'skew_rejected_plain_load', 'gen_force_on_old_layout', 'proteome_with_x_or_stop']
 RULE = ('case = two generated references R_A/R_B; history = Hypothesis rule sequence (<=12 operations) over '
         'gen(R,P,force,symlink,flag) / upd(P,force) / load(P) / load_plain (parser path) / skew(field incl. pre-1.3.0 metadata layout) / unskew with P from an alphabet of 9 '
         'cleavage-parameter sets (two pairs alias each other: graph parameters only, and exception auto vs '
@@ -530,6 +530,24 @@ def case_refs(seed, idx):
     refs = {}
     for name in ('A', 'B'):
         texts, _, _ = workload.gen_reference(rng, rng.randint(3, 5))
+        if rng.random() < 0.5:
+            # proteins as real proteome FASTAs have them: a leading X, an internal X, an internal stop
+            recs = texts['proteome_fa'].split('>')[1:]
+            for kind in rng.sample(['lead_x', 'inner_x', 'stop'], rng.randint(1, 3)):
+                if not recs:
+                    break
+                j = rng.randrange(len(recs))
+                head, _, body = recs[j].partition('\n')
+                body = body.replace('\n', '')
+                if len(body) < 12:
+                    continue
+                if kind == 'lead_x':
+                    body = 'X' + body[1:]
+                else:
+                    cut = rng.randrange(6, len(body) - 3)
+                    body = body[:cut] + ('X' if kind == 'inner_x' else '*') + body[cut + 1:]
+                recs[j] = head + '\n' + body + '\n'
+            texts = dict(texts, proteome_fa=''.join('>' + r for r in recs), odd_proteome=True)
         refs[name] = texts
     return refs
 
@@ -571,6 +589,8 @@ def run_case(seed, task, tier):
                 out['faults'][k] = out['faults'].get(k, 0) + v
         for t in sim.trans:
             out['signatures'].append({'state': t[0], 'op': t[1], 'outcome': t[2]})
+    if any(t.get('odd_proteome') for t in refs.values()):
+        out['probes']['proteome_with_x_or_stop'] = 1
     out['sample'] = {'case': idx, 'n_histories': len(stats_box), 'last_history': trace_box[0]}
     return out
 
